@@ -92,24 +92,27 @@ class Case:
     """files: {relative name: bytes}; argv: the command line after the binary
     (file names relative to the case directory, options)."""
 
-    def __init__(self, kind, files, argv, depth=None, note=""):
+    def __init__(self, kind, files, argv, depth=None, note="", links=None, cwd=""):
         self.kind = kind
         self.files = files
-        self.argv = argv
+        self.argv = argv            # `{ROOT}` in an argument stands for the canonical absolute path of the case directory
         self.depth = depth
         self.note = note
+        self.links = links or {}    # {relative name: symlink target (relative to the link's directory)}
+        self.cwd = cwd              # working directory of the run, relative to the case directory
 
     def size(self):
         return sum(len(v) for v in self.files.values())
 
     def to_json(self):
         return {"kind": self.kind, "argv": self.argv, "note": self.note, "depth": self.depth,
+                "links": self.links, "cwd": self.cwd,
                 "files": {k: base64.b64encode(v).decode() for k, v in self.files.items()}}
 
     @staticmethod
     def from_json(d):
         return Case(d.get("kind", "replay"), {k: base64.b64decode(v) for k, v in d["files"].items()}, d["argv"],
-                    d.get("depth"), d.get("note", ""))
+                    d.get("depth"), d.get("note", ""), d.get("links"), d.get("cwd", ""))
 
 
 RUN_ENV = {"PATH": "/usr/bin:/bin", "RUST_BACKTRACE": "0", "HOME": "/tmp", "NO_COLOR": "1"}
@@ -190,7 +193,16 @@ def run_case(binary, case, root, tag, watchdog=None, trace=False):
             continue
         with open(p, "wb") as f:
             f.write(data)
-    cmd = ["prlimit", "--as=%d" % AS_LIMIT, "--", binary] + list(case.argv)
+    for name, target in case.links.items():
+        p = os.path.join(d, name)
+        os.makedirs(os.path.dirname(p), exist_ok=True)
+        os.symlink(target, p)
+    real_root = os.path.realpath(d)
+    cmd = ["prlimit", "--as=%d" % AS_LIMIT, "--", binary] + [a.replace("{ROOT}", real_root) for a in case.argv]
+    case_dir = d
+    if case.cwd:
+        d = os.path.join(d, case.cwd)
+        os.makedirs(d, exist_ok=True)
     t0 = time.time()
     timed_out = False
     phases = None
@@ -208,7 +220,7 @@ def run_case(binary, case, root, tag, watchdog=None, trace=False):
     out_t = out.decode("utf-8", "replace")
     err_t = err.decode("utf-8", "replace")
     res = {"rc": rc, "timed_out": timed_out, "wall": round(wall, 3), "stdout_tail": out_t[-600:],
-           "stderr_tail": err_t[-900:], "dir": d}
+           "stderr_tail": err_t[-900:], "dir": case_dir}
     if phases is not None:
         res["phases"] = phases
     lines = [l for l in out_t.split("\n") if l.strip()]
@@ -332,6 +344,7 @@ def grammar_cases(ctx, n, counts, stats):
                            max_stmts=rng.choice([3, 5, 8]))
         files = {}
         argv = []
+        links = {}
         r = rng.random()
         if r < 0.7:
             src = g.program()
@@ -347,8 +360,24 @@ def grammar_cases(ctx, n, counts, stats):
             files["a.circom"] = g.program(with_main=False)
             files["b.circom"] = g.program(with_main=False)
             files["lib/l.circom"] = grammargen.Gen(rng, 4).program(n_defs=2, with_main=False)
-            argv = ["a.circom", "b.circom"] + (["-L", "lib"] if rng.random() < 0.5 else []) \
-                + (["nosuch.circom"] if rng.random() < 0.2 else [])
+            argv = ["a.circom", "b.circom"]
+            if rng.random() < 0.5:
+                # follow-up of the third audit: the library directory in a random spelling; in half of these projects an
+                # include cycle / self-include / diamond that is resolved through the library only
+                label, largs, lk, _cwd = rng.choice([x for x in LIB_SPELLINGS if not x[3]])
+                links = dict(lk)
+                files["work/.keep"] = ""
+                for la in largs:
+                    argv += ["-L", la]
+                if rng.random() < 0.5:
+                    form = rng.choice(["cycle", "self", "diamond"])
+                    q_inc = {"cycle": 'include "r/s.circom";\n', "self": 'include "p/q.circom";\n', "diamond": 'include "r/s.circom";\n'}[form]
+                    s_inc = {"cycle": 'include "p/q.circom";\n', "self": "", "diamond": ""}[form]
+                    files["lib/p/q.circom"] = q_inc + grammargen.Gen(rng, 3).program(n_defs=1, with_main=False)
+                    files["lib/r/s.circom"] = s_inc + grammargen.Gen(rng, 3).program(n_defs=1, with_main=False)
+                    files["a.circom"] = 'include "p/q.circom";\n' + ('include "r/s.circom";\n' if form == "diamond" else "") + files["a.circom"]
+                    stats["library_include_graphs_generated"].append(form + "/" + label)
+            argv += (["nosuch.circom"] if rng.random() < 0.2 else [])
             if rng.random() < 0.5:
                 # third audit: a name of a.circom is defined again in b.circom, as the same or as the OTHER kind
                 names = re.findall(r"\b(template|function)\s+([A-Za-z_][A-Za-z0-9_]*)", files["a.circom"])
@@ -363,7 +392,7 @@ def grammar_cases(ctx, n, counts, stats):
             files = {k: grammargen.relex(v, rng) for k, v in files.items()}
         counts.update(g.counts)
         stats["grammar_bytes"].append(sum(len(v) for v in files.values()))
-        out.append(Case("grammar", {k: v.encode("utf-8") for k, v in files.items()}, argv + rand_opts(rng)))
+        out.append(Case("grammar", {k: v.encode("utf-8") for k, v in files.items()}, argv + rand_opts(rng), links=links))
     return out
 
 
@@ -706,6 +735,80 @@ NEST_SHAPES = {
 }
 
 
+def _tpl(name, uses=()):
+    body = "".join("component c%d = %s(); c%d.in <== in; " % (i, u, i) for i, u in enumerate(uses))
+    return "template %s() { signal input in; signal output out; %sout <== in + %d; }\n" % (name, body, len(name))
+
+
+LIB_SPELLINGS = [            # (label, the -L argument(s) for the directory `lib` of the project, links, cwd)
+    ("relative", ["lib"], {}, ""),
+    ("dot-slash", ["./lib"], {}, ""),
+    ("trailing-slash", ["lib/"], {}, ""),
+    ("dot-dot", ["work/../lib"], {}, ""),
+    ("dir-dot", ["lib/."], {}, ""),
+    ("symlink", ["lnk"], {"lnk": "lib"}, ""),
+    ("symlink-nested", ["work/lnk2"], {"work/lnk2": "../lib"}, ""),
+    ("absolute-canonical", ["{ROOT}/lib"], {}, ""),
+    ("absolute-with-dot", ["{ROOT}/./lib"], {}, ""),
+    ("absolute-through-symlink", ["{ROOT}/lnk"], {"lnk": "lib"}, ""),
+    ("twice", ["lib", "{ROOT}/lib"], {}, ""),
+    ("from-subdirectory", ["../lib"], {}, "work"),
+]
+
+
+def include_projects():
+    """[Case]: small projects whose include graph runs through library paths."""
+    P = "pragma circom 2.0.0;\n"
+    shapes = {
+        # name: (files, main file(s) named on the command line, library FILE entries)
+        "cycle-2": ({"main.circom": P + 'include "pkgA/adder.circom";\n' + _tpl("Main", ["Adder"]) + "component main = Main();\n",
+                     "lib/pkgA/adder.circom": P + 'include "pkgB/doubler.circom";\n' + _tpl("Adder"),
+                     "lib/pkgB/doubler.circom": P + 'include "pkgA/adder.circom";\n' + _tpl("Doubler")}, ["main.circom"], []),
+        "cycle-2-entered-in-library": ({"lib/pkgA/adder.circom": P + 'include "pkgB/doubler.circom";\n' + _tpl("Adder"),
+                                        "lib/pkgB/doubler.circom": P + 'include "pkgA/adder.circom";\n' + _tpl("Doubler")},
+                                       ["lib/pkgA/adder.circom"], []),
+        "self-include": ({"main.circom": P + 'include "pkgA/x.circom";\n' + _tpl("Main", ["X"]),
+                          "lib/pkgA/x.circom": P + 'include "pkgA/x.circom";\n' + _tpl("X")}, ["main.circom"], []),
+        "cycle-3": ({"main.circom": P + 'include "a/a.circom";\n' + _tpl("Main", ["A"]),
+                     "lib/a/a.circom": P + 'include "b/b.circom";\n' + _tpl("A"),
+                     "lib/b/b.circom": P + 'include "c/c.circom";\n' + _tpl("B"),
+                     "lib/c/c.circom": P + 'include "a/a.circom";\ninclude "b/b.circom";\n' + _tpl("C")}, ["main.circom"], []),
+        "diamond": ({"main.circom": P + 'include "a/a.circom";\ninclude "b/b.circom";\n' + _tpl("Main", ["A", "B"]),
+                     "lib/a/a.circom": P + 'include "c/c.circom";\n' + _tpl("A", ["C"]),
+                     "lib/b/b.circom": P + 'include "c/c.circom";\n' + _tpl("B", ["C"]),
+                     "lib/c/c.circom": P + _tpl("C")}, ["main.circom"], []),
+        "repeated-include": ({"main.circom": P + 'include "a/a.circom";\ninclude "a/a.circom";\ninclude "a/../a/a.circom";\n' + _tpl("Main", ["A"]),
+                              "lib/a/a.circom": P + _tpl("A")}, ["main.circom"], []),
+        "local-and-library-cycle": ({"main.circom": P + 'include "a/a.circom";\n' + _tpl("Main", ["A"]),
+                                     "lib/a/a.circom": P + 'include "a2.circom";\n' + _tpl("A"),
+                                     "lib/a/a2.circom": P + 'include "a/a.circom";\ninclude "a.circom";\n' + _tpl("A2")},
+                                    ["main.circom"], []),
+        "library-file-cycle": ({"main.circom": P + 'include "x.circom";\n' + _tpl("Main", ["X"]),
+                                "lib/x.circom": P + 'include "main.circom";\ninclude "x.circom";\n' + _tpl("X")},
+                               ["main.circom"], ["x.circom", "../main.circom"]),
+        "two-inputs-share-library": ({"main.circom": P + 'include "a/a.circom";\n' + _tpl("Main", ["A"]),
+                                      "second.circom": P + 'include "a/a.circom";\ninclude "main.circom";\n' + _tpl("Second", ["A"]),
+                                      "lib/a/a.circom": P + 'include "a/a.circom";\n' + _tpl("A")},
+                                     ["main.circom", "second.circom"], []),
+    }
+    out = []
+    for sname, (files, mains, libfiles) in shapes.items():
+        for label, largs, links, cwd in LIB_SPELLINGS:
+            up = "../" if cwd else ""
+            argv = [up + m for m in mains]
+            for la in largs:
+                if libfiles:            # the library entries are FILES below the directory spelled `la`
+                    for lf in libfiles:
+                        argv += ["-L", la.rstrip("/") + "/" + lf]
+                else:
+                    argv += ["-L", la]
+            fs = {k: v.encode() for k, v in files.items()}
+            fs["work/"] = b""
+            out.append(Case("adversarial:include-project:" + sname, fs, argv, note="library spelled " + label,
+                            links=dict(links), cwd=cwd))
+    return out
+
+
 def adversarial_cases(ctx, stats, thorough):
     rng = ctx.rng
     out = []
@@ -893,6 +996,14 @@ def adversarial_cases(ctx, stats, thorough):
         for lv in LEVELS:
             for extra in ([], ["--verbose"], ["--sarif-file", "o.sarif"], ["--allow", "CS0005", "-a", "CS0013"]):
                 add("option-matrix", rich, ["t.circom", "--curve", c, "--level", lv] + extra)
+    # third audit, follow-up (seeded change C01-library-cycle-uncanonical): multi-file projects whose includes are
+    # resolved through `-L` directories and `-L` files - cycles, self-includes, diamonds, a cycle that mixes local and
+    # library resolution - with the library given in every spelling: relative, `./`-prefixed, trailing slash, through
+    # `..`, through a symlink, `dir/.`, absolute canonical, absolute with a `.` in it, twice in two spellings, and
+    # relative to a working directory below the project.  All of them are a few hundred bytes and nest three levels: a
+    # time-out or a memory blow-up falls into no known class and is reported with the project as input.
+    for c in include_projects():
+        out.append(c)
     # third audit: one name defined twice - every pairing of template / function (a clash BETWEEN the two kinds
     # included: the merger keeps two maps and labels the earlier definition by looking the name up), in one file,
     # in two files of the command line (both orders), in an included file, in a library directory, with and
@@ -968,7 +1079,7 @@ def shrink(binary, case, sig, root, budget=250):
         counter[0] += 1
         files = dict(case.files)
         files[name] = data
-        r = run_case(binary, Case(case.kind, files, case.argv), root, "shrink")
+        r = run_case(binary, Case(case.kind, files, case.argv, links=case.links, cwd=case.cwd), root, "shrink")
         return bool(judge(r)) and signature(r) == sig
 
     data = case.files[name]
@@ -988,7 +1099,8 @@ def shrink(binary, case, sig, root, budget=250):
     files[name] = data
     # drop option arguments that are not needed
     argv = list(case.argv)
-    return Case(case.kind, files, argv, case.depth, case.note + " (shrunk from %d bytes in %d runs)" % (len(case.files[name]), counter[0]))
+    return Case(case.kind, files, argv, case.depth, case.note + " (shrunk from %d bytes in %d runs)" % (len(case.files[name]), counter[0]),
+                case.links, case.cwd)
 
 
 # --------------------------------------------------------------------------
@@ -1401,6 +1513,8 @@ def run(ctx, proofs):
         "failing_inputs_in_known_class": dict(known_cases),
         "mutation_seeds": len(seeds), "timeouts_remeasured_alone": rerun_alone,
         "cross_file_name_clashes_generated": dict(collections.Counter(stats["cross_file_name_clashes"])),
+        "library_include_graphs_generated": dict(collections.Counter(stats["library_include_graphs_generated"])),
+        "include_project_matrix_cases": sum(1 for c in cases if c.kind.startswith("adversarial:include-project")),
         "name_clash_matrix_cases": sum(1 for c in cases if c.kind.startswith("adversarial:name-clash")),
         "known_witness_outcomes": witness_outcomes,
         "time_box": {"in_source": tb, "recorded_seconds": RECORDED_BOX_S, "slack_seconds": BOX_SLACK_S, **PHASE_STATS,
